@@ -6,6 +6,7 @@ import (
 	"os"
 	"path/filepath"
 	"strings"
+	"sync"
 	"sync/atomic"
 	"time"
 
@@ -213,6 +214,36 @@ func staleHandleScenario(c *sup.Ctx) {
 			if werr != nil {
 			} else if got, _, aerr := collsA[victim.Collection].GetRaw("via-b"); aerr != nil || string(got) != "written through handle B" {
 				c.Viol([]string{"C11", "C01"}, "stale-handle|by-name-after-recreation|write-invisible", fmt.Sprintf("after handle A dropped and re-created %s, a write acknowledged through the DataStore handle B obtained for that name is not readable through handle A: %q (%v)", full, got, aerr), det)
+			}
+		}
+	}
+	if follow == "recreate-same" && c.Local%4 >= 2 {
+		// handle B (which still caches the first incarnation and has not asked again) starts a backfill feed on the
+		// collection BY NAME: the collection that exists under that name holds A's three new documents (one a tombstone
+		// if it was deleted), and the snapshot must show them
+		var mu sync.Mutex
+		got := map[string]bool{}
+		bdone := make(chan struct{})
+		ferr := b.StartDCPFeed(ctx, sgbucket.FeedArguments{ID: "stale-by-name", Backfill: 0, Dump: true, DoneChan: bdone,
+			Scopes: map[string][]string{victim.Scope: {victim.Collection}}}, func(e sgbucket.FeedEvent) bool {
+			if e.Opcode == sgbucket.FeedOpMutation || e.Opcode == sgbucket.FeedOpDeletion {
+				mu.Lock()
+				got[string(e.Key)] = true
+				mu.Unlock()
+			}
+			return true
+		}, nil)
+		c.Count("backfills_by_name_through_a_handle_with_a_stale_cache", 1)
+		if ferr == nil {
+			select {
+			case <-bdone:
+			case <-time.After(10 * time.Second):
+			}
+			mu.Lock()
+			n := len(got)
+			mu.Unlock()
+			if n < len(keys) {
+				c.Viol([]string{"C09", "C11"}, "stale-handle|backfill-by-name-after-recreation", fmt.Sprintf("after handle A dropped and re-created %s.%s and wrote %d documents into it, a backfill from CAS 0 started through handle B with Scopes naming that collection delivered %d of them", victim.Scope, victim.Collection, len(keys), n), map[string]any{"disk": disk, "delivered": n})
 			}
 		}
 	}
